@@ -143,13 +143,13 @@ def _gen_attr(ctx, arch, spec, nm, little):
         ctx.assume(ctx.lor(*[tag == t for t in ulebs]))
         n = spec.get('leb', 1)
         v = ctx.uint(nm + '.v', 7 * n)
-        return [tag] + enc.uleb_enc(v, n), (tag, v, None)
+        return enc.uleb_enc(tag, spec.get('tagleb', 1)) + enc.uleb_enc(v, n), (tag, v, None)
     if kind == 'ntbs':
         cands = [t for t, k in kinds.items() if k == 'ntbs']
         tag = ctx.uint(nm + '.tag', 7)
         ctx.assume(ctx.lor(*[tag == t for t in cands]))
         chars = _ascii(ctx, nm + '.s', spec.get('len', 0))
-        return [tag] + chars + [0], (tag, chars, None)
+        return enc.uleb_enc(tag, spec.get('tagleb', 1)) + chars + [0], (tag, chars, None)
     if kind == 'compat':
         n = spec.get('leb', 1)
         v = ctx.uint(nm + '.v', 7 * n)
@@ -187,8 +187,10 @@ def _gen_subsub(ctx, arch, spec, nm, little):
         b, want = _gen_attr(ctx, arch, a, '%s.a%d' % (nm, i), little)
         body += b
         attrs.append(want)
-    length = 1 + 4 + len(body)
-    return [scope] + enc.enc_int(length, 4, little) + body, dict(scope=scope, length=length, numbers=nums, attrs=attrs)
+    # tags are ULEB128 numbers: a padded (non-minimal) encoding is as valid as the one-byte one
+    stag = enc.uleb_enc(scope, spec.get('scopeleb', 1))
+    length = len(stag) + 4 + len(body)
+    return stag + enc.enc_int(length, 4, little) + body, dict(scope=scope, length=length, numbers=nums, attrs=attrs)
 
 
 def _gen_section(ctx, arch, spec, little):
@@ -357,6 +359,8 @@ def _attr_instances(tier):
             for k, a in enumerate(specs):
                 out.append(dict(arch=arch, little=little, label='single', pad=4, spec=[dict(vendor='aeabi', subsubs=[ss(1, [a])])]))
             u, s = specs[0], specs[3]
+            out.append(dict(arch=arch, little=little, label='padded-tags', pad=4, spec=[dict(vendor='aeabi', subsubs=[ss(1, [dict(u, tagleb=2), dict(s, tagleb=3), u])])]))
+            out.append(dict(arch=arch, little=little, label='padded-scope-tag', pad=4, spec=[dict(vendor='aeabi', subsubs=[dict(ss(1, [u]), scopeleb=2), dict(ss(2, [dict(s, tagleb=2)], [1]), scopeleb=3)])]))
             shapes = {
                 'two-attrs': [dict(vendor='aeabi', subsubs=[ss(1, [u, s])])],
                 'empty-file-scope': [dict(vendor='aeabi', subsubs=[ss(1, [])])],
